@@ -359,9 +359,16 @@ def Node.powerOn (n : Node) : Node :=
   if n.startDur ≤ 0 then { n with power := .on }.mapSws Sw.startUp
   else if n.power = .off then { n with power := .booting, startCd := n.startDur } else n
 
+/-- the node goes OFF now (`_shut_down_actions`, `operating_state = OFF`) and, if it is resetting, is powered on again at
+once (both in `power_off` with `shut_down_duration <= 0` — after "fix: reset with shut_down_duration 0 never restarted the
+node" — and at the end of the shut-down countdown in `apply_timestep`). -/
+def Node.offNow (n : Node) : Node :=
+  let n1 := { n.mapSws Sw.shutDown with power := .off }
+  if n1.resetting then { n1 with resetting := false }.powerOn else n1
+
 /-- `Node.power_off` -/
 def Node.powerOff (n : Node) : Node :=
-  if n.shutDur ≤ 0 then { n.mapSws Sw.shutDown with power := .off }
+  if n.shutDur ≤ 0 then n.offNow
   else if n.power = .on then { n with power := .shuttingDown, shutCd := n.shutDur } else n
 
 /-- first half of `Node.apply_timestep`: boot countdown. -/
@@ -372,9 +379,7 @@ def Node.bootPhase (n : Node) : Node :=
 /-- second half: shut-down countdown, and the restart of a resetting node. -/
 def Node.shutPhase (n : Node) : Node :=
   if n.shutCd > 0 then { n with shutCd := n.shutCd - 1 }
-  else if n.power = .shuttingDown then
-    let n1 := { n.mapSws Sw.shutDown with power := .off }
-    if n1.resetting then { n1 with resetting := false }.powerOn else n1
+  else if n.power = .shuttingDown then n.offNow
   else n
 
 def Node.powerPhase (n : Node) : Node := n.bootPhase.shutPhase
